@@ -628,18 +628,24 @@ func ruleScaleWire(c *Ctx) {
 	})
 	c.check(miss, name+"|unknown-key", c.pos(fn.Pos()), name, "a key without a signature row is an error", "NewScale no longer returns an error for a key that has no row in the signature table (e.g. E#, Fb): a scale is made up for it")
 	// accidental assignment
-	classify := func(b *ssa.BasicBlock) (in, sharp, known string) {
+	tr := &tracer{c: c, stop: func(f *ssa.Function) bool { return f.Object() != nil && f.Object().Exported() }}
+	classifyG := func(gs []gcond) (in, sharp string) {
 		in, sharp = "?", "?"
-		for _, pc := range pathConds(b) {
-			if call, ok := pc.cond.(*ssa.Call); ok && calleeName(&call.Call) == "util.Set.In" {
-				if n, _, ok := loadedField(call.Call.Args[1]); ok && n == "Name" {
-					in = fmt.Sprint(pc.side)
+		for _, g := range gs {
+			gl := tr.trace(g.cond)
+			if call, ok := gl.v.(*ssa.Call); ok && calleeName(&call.Call) == "util.Set.In" {
+				if n, _, ok := loadedField(tr.trace(gl.with(call.Call.Args[1])).v); ok && n == "Name" {
+					in = fmt.Sprint(g.want)
 				}
 			}
-			if n, _, ok := loadedField(pc.cond); ok && n == "isSharp" {
-				sharp = fmt.Sprint(pc.side)
+			if n, _, ok := loadedField(gl.v); ok && n == "isSharp" {
+				sharp = fmt.Sprint(g.want)
 			}
 		}
+		return in, sharp
+	}
+	classify := func(b *ssa.BasicBlock) (in, sharp, known string) {
+		in, sharp = classifyG(guardsOf(b, lval{nil, fn, nil}))
 		return in, sharp, ""
 	}
 	acc := c.enumConsts("op", "Accidental")
@@ -655,17 +661,20 @@ func ruleScaleWire(c *Ctx) {
 		if !ok || n != "Accidental" {
 			return
 		}
-		k, ok := constInt(st.Val)
-		if !ok {
-			c.undec(name+"|accidental", c.pos(st.Pos()), name, "a scale note's accidental is not a constant")
-			return
+		// the value may be chosen by an extracted helper with one return per case: expand it into guarded alternatives
+		for _, a := range tr.alts(lval{st.Val, fn, nil}, 0) {
+			k, ok := constInt(a.leaf.v)
+			if !ok {
+				c.undec(name+"|accidental", c.pos(st.Pos()), name, "a scale note's accidental is not a constant")
+				return
+			}
+			c.site(1)
+			inS, shS := classifyG(append(guardsOf(st.Block(), lval{nil, fn, nil}), a.conds...))
+			w, known := want[k]
+			got[k] = true
+			good := known && inS == w[0] && (w[1] == "?" || shS == w[1])
+			c.check(good, name+"|accidental|"+names[k], c.pos(st.Pos()), name, fmt.Sprintf("%s when in-signature=%s sharp-key=%s", names[k], inS, shS), fmt.Sprintf("a scale note becomes %s when in-signature=%s sharp-key=%s; it must be Sharp iff the letter is in the signature of a sharp key, Flat iff in the signature of a flat key, Natural otherwise", names[k], inS, shS))
 		}
-		c.site(1)
-		inS, shS, _ := classify(st.Block())
-		w, known := want[k]
-		got[k] = true
-		good := known && inS == w[0] && (w[1] == "?" || shS == w[1])
-		c.check(good, name+"|accidental|"+names[k], c.pos(st.Pos()), name, fmt.Sprintf("%s when in-signature=%s sharp-key=%s", names[k], inS, shS), fmt.Sprintf("a scale note becomes %s when in-signature=%s sharp-key=%s; it must be Sharp iff the letter is in the signature of a sharp key, Flat iff in the signature of a flat key, Natural otherwise", names[k], inS, shS))
 	})
 	for k, nm := range names {
 		if !got[k] {
